@@ -17,6 +17,8 @@ const (
 	VerifSiteFieldsVsFragment        // overlapping fields: fields/fragment pair, after the memo test
 	VerifSiteFragmentVsFragment      // overlapping fields: fragment pair, after the memo test
 	VerifSiteFieldsCollected         // overlapping fields: getFieldsAndFragmentNames cache miss
+	VerifSiteLiteralCoerced          // values.go valueFromAST, per call (literal coercion)
+	VerifSiteLiteralValidated        // rules.go isValidLiteralValue, per call (literal validation)
 	verifSites
 )
 
